@@ -1146,14 +1146,8 @@ func TestC20(t *testing.T) {
 		semanticsInfo(c, dbm.NewMemDB(), lvl)
 	})
 
-	// TODO(coordinator) NODE-LEVEL HOOK POINT (DESIGN §4 C20, second half): run one
-	// C10 history (block tree + reorganisations + close/re-open) through
-	// protocol.NewChain on a MemDB-backed and on a GoLevelDB-backed database.Store
-	// and compare the node-level observable states (best block, main-chain index,
-	// UTXO set, checkpoints).  Needs internal/chainkit; add it here as
-	//     r.Cases("node-history", r.N(..., ...), func(c *ev.Case) { ... })
-	// with violation keys "node:<observable>:<backend>".  Deliberately not
-	// implemented in this file.
+	nodeHistories(r)
+
 
 	for _, op := range []string{"Set", "SetSync", "Delete", "DeleteSync", "Get", "batch.Write", "Iterator", "IteratorPrefix", "IteratorPrefixWithStart", "IteratorPrefix+Delete", "IteratorPrefix+batch.Delete", "Iterator+Delete(clear)", "reopen"} {
 		r.Floor("op:"+op, 20)
